@@ -277,10 +277,11 @@ def case_lambert(ctx, job, idx, rng, st):
         miss = float(np.linalg.norm(rr - r1))
         well = body == "Earth" or (ratio <= 3.0 and (20 * DEG <= ang <= 160 * DEG or 200 * DEG <= ang <= 330 * DEG))
         # "within metres" = 10 m.  Noise floor of a *converged* solver (Newton exit condition repaired in a scratch
-        # copy, 80 000 transfers): Earth-scale <= 5.5e-4 m; Sun-scale, well-conditioned class <= 0.1 m; Sun-scale
-        # otherwise (dt > 3 x parabolic time, or way within 20 deg of 0/180/360 deg) <= 7.3e-12 (r0+r1) from the
-        # cancellation in y(z) = r0 + r1 + A (zS-1)/sqrt(C): there 100 x floor = 1e-9 (r0+r1) is added.
-        tol = 10.0 if well else 10.0 + 1e-9 * (nr0 + nr1)
+        # copy, 305 000 transfers): Earth-scale <= 1.4e-3 m; Sun-scale, well-conditioned class <= 0.07 m; Sun-scale
+        # otherwise (dt > 3 x parabolic time, or way within 20 deg of 0/180/360 deg) <= 1.1e-11 (r0+r1) from the
+        # cancellation in y(z) = r0 + r1 + A (zS-1)/sqrt(C): there ~200 x floor = 2e-9 (r0+r1) is added
+        # (the unrepaired loop misses by 1e-6..1e-2 (r0+r1)).
+        tol = 10.0 if well else 10.0 + 2e-9 * (nr0 + nr1)
         unconverged = n_newton >= 1 and not (abs(last) <= 1e-8)
         if unconverged and n_newton == 1:
             key = "C19/lambert-newton-loop-exits-after-first-iteration"
